@@ -1,3 +1,5 @@
 SPECIFICATION Spec
+CONSTANTS
+  Dev = {"HardStateSavedOnlyOnDrop", "Prev0ResetsFollowerLog", "GappedAppendRequest", "VoteResetOnAnyStepDown", "EmptyAEAckReportsWholeLog", "FollowerCommitUsesWholeLog"}
 INVARIANT Done
 CHECK_DEADLOCK FALSE
